@@ -166,6 +166,19 @@ fn main() {
         std::process::exit(0);
     }
 
+    // watchdog: the wall-clock cap is polled between configurations, so a configuration that never returns
+    // (an operation of the library that loops, or a reader of the harness that is too slow on what the library
+    // produced) would hold the check for ever. Four times the cap after the start the run is given up as a
+    // machinery failure (exit 2: no verdict, never a violation).
+    {
+        let limit = Duration::from_secs(wall_cap.saturating_mul(4).max(120));
+        let id2 = id.clone();
+        std::thread::spawn(move || {
+            std::thread::sleep(limit);
+            eprintln!("MACHINERY: watchdog: {} still running after four times its wall-clock cap ({} s); giving up without a verdict", id2, limit.as_secs());
+            std::process::exit(2);
+        });
+    }
     let res = guarded(|| (prop.run)(&ctx));
     let wall = ctx.start.elapsed().as_secs_f64();
     let rep = match res {
